@@ -174,11 +174,11 @@ def main(argv=None):
     for n, (e, rec, v, fp) in enumerate(new[:5]):
         plan = rec["plan"]
         tried = 0
-        if plan is not None and n < 3 and hasattr(orch.engine_module(e), "shrink_candidates"):
+        if plan is not None and n < (3 if tier == "thorough" else 2) and hasattr(orch.engine_module(e), "shrink_candidates"):
             try:
                 plan, tried = orch.minimise(e, plan, (prop, v["oracle"]),
                                             budget=400 if tier == "thorough" else 150,
-                                            wall_s=300 if tier == "thorough" else 60)
+                                            wall_s=300 if tier == "thorough" else 45)
             except Exception as ex:
                 print(f"  (minimisation failed: {ex!r})")
                 plan = rec["plan"]
@@ -196,7 +196,7 @@ def main(argv=None):
         print(f"  (further violation not minimised: {fp})")
 
     wall = time.time() - t0
-    if aggs:
+    if aggs and not os.environ.get("TSIM_NO_EVIDENCE"):
         write_evidence(prop, tier, seed, aggs, reported, known_hits, wall)
     total_runs = sum(a["runs"] for a in aggs)
     inconclusive = sum(a["inconclusive"] for a in aggs)
